@@ -45,7 +45,7 @@ def main():
     try:
         subprocess.check_call(["rsync", "-a", "--exclude", "target", "--exclude", ".git", REPO + "/", scratch + "/"])
         env = dict(os.environ, NOODLES_REPO=scratch, VERIF_EVIDENCE_DIR=evdir,
-                   VERIF_CACHE=os.path.join(VERIF, ".cache-selftest"))
+                   VERIF_CACHE=os.environ.get("SELFTEST_CACHE", os.path.join(VERIF, ".cache-selftest")))
         work = []
         for kind in ("mutants", "equivalent"):
             d = os.path.join(HERE, kind)
